@@ -32,10 +32,14 @@ func endApp(quiet bool) *app.Res {
 		return resource.Result{Content: "t", FlagSet: []uint32{state.FLAG_TERMINATE}}, nil
 	}
 	menu := func(c *app.P) *app.P {
-		return c.Halt().InCmp("end1", "1").InCmp("abn", "2").InCmp("term", "3").InCmp("deeper", "4").InCmp("marked", "5")
+		return c.Halt().InCmp("end1", "1").InCmp("abn", "2").InCmp("term", "3").InCmp("deeper", "4").InCmp("marked", "5").InCmp("end2", "6")
 	}
 	rs.Node("root", "root {{.hdr}}", menu(app.Code().Load("hdr", 8).Map("hdr").MOut("x", "1")).Bytes())
-	rs.Node("deeper", "deeper", app.Code().Halt().InCmp("end1", "1").InCmp("abn", "2").InCmp("term", "3").InCmp("_", "0").Bytes())
+	rs.Node("deeper", "deeper", app.Code().Halt().InCmp("end1", "1").InCmp("abn", "2").InCmp("term", "3").InCmp("_", "0").InCmp("end2", "6").Bytes())
+	// an end node whose last LOAD yields nothing: the final output is its page
+	// and nothing else (the exit text is the LAST loaded value, which is empty)
+	rs.Funcs["blank"] = app.Static("")
+	rs.Node("end2", "fin {{.bye}}", app.Code().Load("bye", 8).Map("bye").Load("blank", 8).Halt().Bytes())
 	rs.Node("marked", "marked {{.mark}}", app.Code().Load("mark", 4).Map("mark").Halt().InCmp("_", "0").Bytes())
 	rs.Node("end1", "done {{.bye}}", app.Code().Load("bye", 8).Map("bye").Halt().Bytes())
 	if quiet {
@@ -167,6 +171,9 @@ func End(v *vrt.Ctx) {
 			} else {
 				// graceful end: the final output was delivered
 				v.Assert(out != "", "C20/graceful-end-delivers-final-output")
+				if string(in) == "6" {
+					v.Assert(out == "fin bye", "C20/final-output-is-the-end-page-and-the-last-loaded-value")
+				}
 				// the exit text has been delivered with it: nothing of it stays
 				// in the stored session to show up at a later end
 				v.Assert(ca.LastValue == "", "C20/ended-session-keeps-no-exit-text")
